@@ -166,7 +166,7 @@ class C17(Check):
                     ng = len(arr)
                     if tier == "quick" and ng == 1:
                         continue
-                    for decs in itertools.product(decor if tier == "thorough" else [decor[0], decor[1], decor[2], decor[4], decor[6], decor[9]], repeat=ng):
+                    for decs in itertools.product(decor if tier == "thorough" else [decor[0], decor[1], decor[2], decor[4], decor[6], decor[7], decor[9]], repeat=ng):
                         n += 1
                         if only is None and n % chunks != chunk:
                             continue
